@@ -196,3 +196,62 @@ pub fn write_replay(property: &str, signature: &str, body: &Value) -> String {
 pub fn threads() -> usize {
     std::env::var("VERIF_THREADS").ok().and_then(|s| s.parse().ok()).unwrap_or_else(|| std::thread::available_parallelism().map(|n| n.get()).unwrap_or(8))
 }
+
+/// Hang detection for the explorers: an engine call that does not return would otherwise hang the whole check.  Every
+/// worker registers what it is about to execute; a watchdog thread reports an execution that has been running for more
+/// than `LIMIT_S` seconds of real time (normal executions take micro- to milliseconds) as a C11 violation and ends the
+/// process with exit code 1.
+pub mod watchdog {
+    use super::*;
+    use std::collections::HashMap;
+    use std::sync::{Mutex, OnceLock};
+    use std::thread::ThreadId;
+
+    pub const LIMIT_S: f64 = 90.0;
+    type Describe = Box<dyn Fn() -> Value + Send>;
+    struct Entry { start_ns: u64, describe: Describe }
+    static TABLE: OnceLock<Mutex<HashMap<ThreadId, Entry>>> = OnceLock::new();
+    static CONTEXT: OnceLock<Mutex<(String, String, Value)>> = OnceLock::new();
+    fn table() -> &'static Mutex<HashMap<ThreadId, Entry>> { TABLE.get_or_init(|| Mutex::new(HashMap::new())) }
+
+    /// (property being checked, tier, locator of the configuration being explored) for the artefact
+    pub fn set_context(property: &str, tier: &str, locator: Value) {
+        let c = CONTEXT.get_or_init(|| Mutex::new((String::new(), String::new(), Value::Null)));
+        *c.lock().unwrap() = (property.to_string(), tier.to_string(), locator);
+    }
+
+    pub struct Guard;
+    impl Drop for Guard { fn drop(&mut self) { table().lock().unwrap().remove(&std::thread::current().id()); } }
+
+    pub fn enter(describe: impl Fn() -> Value + Send + 'static) -> Guard {
+        table().lock().unwrap().insert(std::thread::current().id(), Entry { start_ns: crate::vclock::real_ns(), describe: Box::new(describe) });
+        Guard
+    }
+
+    pub fn start() {
+        static STARTED: Once = Once::new();
+        STARTED.call_once(|| {
+            std::thread::spawn(|| loop {
+                std::thread::sleep(std::time::Duration::from_secs(2));
+                crate::vclock::set(None);
+                let now = crate::vclock::real_ns();
+                let stuck: Option<Value> = { let t = table().lock().unwrap(); t.values().find(|e| now.saturating_sub(e.start_ns) as f64 / 1e9 > LIMIT_S).map(|e| (e.describe)()) };
+                if let Some(what) = stuck {
+                    let (property, tier, locator) = CONTEXT.get().map(|c| c.lock().unwrap().clone()).unwrap_or_default();
+                    let signature = "engine call does not return";
+                    let mut body = json!({"kind": "engine-history", "property": "C11", "signature": signature, "detail": format!("one execution has been running for more than {} s of real time: an entry point of the library does not return (replaying this artefact hangs too)", LIMIT_S), "then_fair_closure": true, "execution": what, "tier": tier});
+                    if let (Some(b), Some(l)) = (body.as_object_mut(), locator.as_object()) { for (k, v) in l { b.insert(k.clone(), v.clone()); } }
+                    if let Some(h) = body["execution"]["history"].clone().as_array() { body["history"] = json!(h); }
+                    let path = write_replay("C11", signature, &body);
+                    let evidence = json!({"property_id": property, "tier": if tier == "thorough" { "thorough" } else { "quick" }, "seed": 0, "level": "model_checking", "wall_s": 0.0, "violations": 1,
+                        "coverage": {"states": 1, "transitions": 1, "traces_validated_against_impl": 1, "samples": [body["execution"].clone()], "exhaustive": false, "rule": "run aborted by the hang watchdog: only the hanging execution is reported"}});
+                    let _ = std::fs::write(format!("{}/evidence/{}.json", verif_root(), property), serde_json::to_string_pretty(&evidence).unwrap() + "\n");
+                    println!("VIOLATION property=C11 replay={}", path);
+                    println!("  signature: {}", signature);
+                    println!("  detail: {}", body["detail"].as_str().unwrap_or(""));
+                    std::process::exit(1);
+                }
+            });
+        });
+    }
+}
